@@ -55,19 +55,43 @@ def build_ev(s):
                   build_battery(s["battery"]), estimated_departure=s.get("est_departure"))
 
 
-def build_events(sc, reuse_evs=None, reuse_queue=None):
-    """reuse_evs: {session_id: EV object of an earlier simulation, already reset()}; reuse_queue: a drained EventQueue."""
+class TaggedPluginEvent(sut.PluginEvent):
+    """User extension through the documented extension point (a subclass of a built-in event type); adds nothing."""
+
+
+class TaggedRecomputeEvent(sut.RecomputeEvent):
+    """User extension: a subclass of RecomputeEvent; adds nothing."""
+
+
+def build_events(sc, reuse_evs=None, reuse_queue=None, later=None, cuts=()):
+    """reuse_evs: {session_id: EV object of an earlier simulation, already reset()}; reuse_queue: a drained EventQueue.
+    later/cuts: events at or after the first cut time are not loaded into the queue but appended to `later` as
+    (batch index, event): the operator adds batch b after run() has returned for the b-th time (driver.run_world)."""
     evs = []
     for s in sc["sessions"]:
         ev = (reuse_evs or {}).get(s["session_id"]) or build_ev(s)
-        evs.append(sut.PluginEvent(s["arrival"], ev))
+        cls = TaggedPluginEvent if s.get("ev_sub") else sut.PluginEvent
+        evs.append(cls(s["arrival"], ev))
     for e in sc["extra_events"]:
-        evs.append(sut.Event(e["t"]) if e.get("type") == "Event" else sut.RecomputeEvent(e["t"]))
+        if e.get("type") == "Event":
+            evs.append(sut.Event(e["t"]))
+        else:
+            evs.append((TaggedRecomputeEvent if e.get("sub") else sut.RecomputeEvent)(e["t"]))
     dp = sc.get("dup_plugin")
     if dp:
         s0 = next(s for s in sc["sessions"] if s["session_id"] == dp["session_id"] and s["station"] == dp["station"])
         evs.append(sut.PluginEvent(dp["t"], build_ev(s0)))     # invalid input: must be refused (or change nothing)
     sub(sc["sim"].get("shuffle_events", 0), "evshuffle").shuffle(evs)
+    cuts = sorted(cuts or ())
+    if later is not None and cuts:
+        now = []
+        for e in evs:
+            b = sum(1 for c in cuts if e.timestamp >= c)
+            if b == 0:
+                now.append(e)
+            else:
+                later.append((b, e))
+        evs = now
     if reuse_queue is not None:
         reuse_queue.add_events(evs)
         return reuse_queue
@@ -91,9 +115,9 @@ def build_signals(sim):
     raise ValueError(sg)
 
 
-def build_sim(sc, party, network=None, reuse_evs=None, reuse_queue=None):
+def build_sim(sc, party, network=None, reuse_evs=None, reuse_queue=None, later=None, cuts=()):
     nw = network if network is not None else build_network(sc["network"])
-    q = build_events(sc, reuse_evs, reuse_queue)
+    q = build_events(sc, reuse_evs, reuse_queue, later=later, cuts=cuts)
     first = party
     if "built_with_max_recompute" in sc["sim"]:
         # the simulator is constructed with some other scheduler (its own recompute interval) and the party is swapped in
